@@ -111,6 +111,7 @@ type Path struct {
 	pcLit     []string
 
 	initingShallow bool
+	forceInit      *ssa.Function // the initializer ensureInit is running right now (not to be skipped as a nested one)
 	crash          *crashRec
 	crashReported  bool
 	pendingAbort   *abortPath
